@@ -438,3 +438,28 @@ def check_separators(ctx):
                       "T2-separator-contract", "%s:tag-is-max-seek" % name, w.name, site(w, tag[0][2]),
                       "the tag is (MAX_SEQUENCE, SEEK): the earliest internal key of that user key",
                       "tag value is %s" % key(a1))
+
+
+def check_filter_offsets(ctx):
+    """Filters are indexed by the file offset at which a data block starts
+    (offset >> base_lg): the builder must announce the offset after the block
+    *and its trailer*, i.e. the running file offset, or a block that starts
+    within a few bytes after a 2 KiB boundary is filed under the previous
+    filter and the reader's lookup rejects keys that are present."""
+    TB = "src/table/table_builder.c"
+    f = ctx.fn("ldb_tablegen_flush", TB)
+    sb = [(b, i, e) for (b, i, e) in f.events("call") if is_call(e, "ldb_filtergen_start_block")]
+    ctx.check(len(sb) == 1 and argkey(sb[0][2], 1) == "tb->offset", "T6-filter-offset", "flush:next-block-offset", f.name, f.loc,
+              "the filter builder is told the running file offset (after the block and its trailer)",
+              "the filter builder is told %s" % [argkey(e, 1) for b, i, e in sb])
+    from ..rules import always_before
+    always_before(ctx, "T6-filter-offset", "flush:after-write", f, lambda e: is_call(e, "ldb_tablegen_write_block"),
+                  lambda e: is_call(e, "ldb_filtergen_start_block"), "the offset is announced after the block was written")
+    wr = ctx.fn("ldb_tablegen_write_raw_block", TB)
+    adv = [key(e["rhs"]) for b, i, e in wr.events("asg") if key(e["lhs"]) == "tb->offset" and e["op"] == "+="]
+    ctx.check(len(adv) == 1 and "5" in adv[0] and "size" in adv[0], "T6-filter-offset", "offset-includes-trailer", wr.name, wr.loc,
+              "the running offset advances by the block size plus the 5-byte trailer", "tb->offset advances by %s" % adv)
+    tg = ctx.fn("ldb_table_internal_get", "src/table/table.c")
+    fm = [(b, i, e) for (b, i, e) in tg.events("call") if is_call(e, "ldb_filter_matches")]
+    ctx.check(len(fm) == 1 and argkey(fm[0][2], 1) == "handle.offset", "T6-filter-offset", "reader:block-offset", tg.name, tg.loc,
+              "the reader consults the filter of the block's own start offset", "the reader consults the filter at %s" % [argkey(e, 1) for b, i, e in fm])
